@@ -253,6 +253,23 @@ pub fn run(ctx: &Ctx) -> i32 {
                 return;
             }
         }
+        // C19: routings with signature entries of magnitude 2 (unimodular shears applied twice): products of signature
+        // entries other than 0 and +-1 reach code paths of the L matrix that the default cycle bases never execute
+        let mut sheared: Vec<Routed> = vec![];
+        if !is14 && case.nl >= 2 {
+            let n = case.nl;
+            let id: Vec<Vec<i64>> = (0..n).map(|a| (0..n).map(|b| (a == b) as i64).collect()).collect();
+            let mut s1 = id.clone();
+            s1[0][1] = 1;
+            let mut s2 = id.clone();
+            s2[1][0] = -1;
+            let bk = case.base_kin();
+            for m in [oracle::kin::mat_mul_i(&s1, &s1), oracle::kin::mat_mul_i(&s2, &s2)] {
+                if let Ok(rs) = route_via(&case, &bk.change_basis(&m)) {
+                    sheared.push(rs);
+                }
+            }
+        }
         let sectors = if i >= n_regular { sector_subset(ne, false) } else { all_sectors(ne) };
         if i >= n_regular {
             acc.inc("large_cases");
@@ -421,6 +438,11 @@ pub fn run(ctx: &Ctx) -> i32 {
                         dataflow_point(&case, &r, x, &Settings::DEFAULT, false, true, &mut census, lam, acc);
                         // error exits: stability test that always fails, and a Gamma error
                         if *ndev == 0 {
+                            for rs in &sheared {
+                                acc.inc("sheared_routing_tracked_executions");
+                                dataflow_point(&case, rs, x, &Settings::META, false, true, &mut HashMap::new(), None, acc);
+                                dataflow_point(&case, rs, x, &Settings::DEFAULT, false, true, &mut HashMap::new(), None, acc);
+                            }
                             let st_u = Settings { stability: Some(-1.0), debug: false, metadata: false };
                             dataflow_point(&case, &r, x, &st_u, false, true, &mut HashMap::new(), None, acc);
                             let mut xz = x.clone();
